@@ -438,6 +438,27 @@ func (w *World) nonNilByConstruction(v ssa.Value, blk *ssa.BasicBlock) bool {
 			if (p == "errors" && f.Name() == "New") || (p == "fmt" && f.Name() == "Errorf") {
 				return true
 			}
+			// a package function every return of which is non-nil by construction
+			// (a helper that builds the error)
+			if w.inPkg(f) && len(f.Blocks) > 0 && f.Signature.Results().Len() == 1 {
+				if w.nonNilDepth > 3 {
+					return false
+				}
+				w.nonNilDepth++
+				defer func() { w.nonNilDepth-- }()
+				all, any := true, false
+				for _, b := range f.Blocks {
+					if ret, ok := normalReturn(b); ok && len(ret.Results) == 1 {
+						any = true
+						if !w.nonNilByConstruction(ret.Results[0], b) {
+							all = false
+						}
+					}
+				}
+				if all && any {
+					return true
+				}
+			}
 		}
 	case *ssa.MakeInterface:
 		return true
@@ -879,7 +900,10 @@ func (w *World) depthGuard(fn *ssa.Function) *guardInfo {
 			return nil
 		}
 		h := w.depthGuardInline(c)
-		if h == nil || !w.exceedPanics(c) {
+		if h == nil {
+			return nil
+		}
+		if !w.exceedPanics(c) && !w.exceedReportedAndObeyed(fn, c, ci) {
 			return nil
 		}
 		g := &guardInfo{Field: h.Field, Limit: h.Limit}
@@ -942,6 +966,136 @@ func (w *World) exceedPanics(c *ssa.Function) bool {
 		}
 	}
 	return okAll
+}
+
+// exceedReportedAndObeyed: the guard helper c does not panic beyond the limit
+// but reports it (every return on the "counter too large" side yields a
+// non-nil error / true, the plain return yields nil / false), and the caller
+// fn tests that result at once and leaves without calling any package
+// function when it is set.
+func (w *World) exceedReportedAndObeyed(fn, c *ssa.Function, site ssa.CallInstruction) bool {
+	if c.Signature.Results().Len() != 1 {
+		return false
+	}
+	if blockIf(c.Blocks[0]) == nil {
+		return false
+	}
+	exceedSide := false
+	for _, s := range c.Blocks[0].Succs {
+		if sideReturnsSet(s) {
+			exceedSide = true
+		}
+	}
+	return exceedSide && w.callerObeys(fn, site)
+}
+
+func isUnsetConst(v ssa.Value) bool {
+	k, ok := strip(v).(*ssa.Const)
+	if !ok {
+		return false
+	}
+	return k.Value == nil || k.Value.ExactString() == "false"
+}
+
+// sideReturnsSet: every return reachable from s yields a single value that is
+// not the nil/false constant (and there is at least one).
+func sideReturnsSet(s *ssa.BasicBlock) bool {
+	all, any := true, false
+	for b := range reachableFrom(s, nil) {
+		if ret, ok := b.Instrs[len(b.Instrs)-1].(*ssa.Return); ok {
+			any = true
+			if len(ret.Results) != 1 || isUnsetConst(ret.Results[0]) {
+				all = false
+			}
+		}
+	}
+	return all && any
+}
+
+// callerObeys: fn tests the result of the call site in its entry block and,
+// when it is set (non-nil / true), leaves without calling a package function;
+// every other package call of fn lies behind the unset edge.
+func (w *World) callerObeys(fn *ssa.Function, site ssa.CallInstruction) bool {
+	call, ok := site.(*ssa.Call)
+	if !ok || call.Block() != fn.Blocks[0] {
+		return false
+	}
+	cifi := blockIf(fn.Blocks[0])
+	if cifi == nil {
+		return false
+	}
+	cond := cifi.Cond
+	neg := false
+	for {
+		if u, ok := cond.(*ssa.UnOp); ok && u.Op == token.NOT {
+			cond, neg = u.X, !neg
+			continue
+		}
+		break
+	}
+	var setSucc, okSucc *ssa.BasicBlock
+	switch x := cond.(type) {
+	case *ssa.BinOp:
+		var other ssa.Value
+		if strip(x.X) == ssa.Value(call) {
+			other = x.Y
+		} else if strip(x.Y) == ssa.Value(call) {
+			other = x.X
+		}
+		if other == nil || !isUnsetConst(other) || (x.Op != token.NEQ && x.Op != token.EQL) {
+			return false
+		}
+		setOnTrue := x.Op == token.NEQ
+		if neg {
+			setOnTrue = !setOnTrue
+		}
+		if setOnTrue {
+			setSucc, okSucc = fn.Blocks[0].Succs[0], fn.Blocks[0].Succs[1]
+		} else {
+			setSucc, okSucc = fn.Blocks[0].Succs[1], fn.Blocks[0].Succs[0]
+		}
+	case *ssa.Call:
+		if x != call {
+			return false
+		}
+		if neg {
+			setSucc, okSucc = fn.Blocks[0].Succs[1], fn.Blocks[0].Succs[0]
+		} else {
+			setSucc, okSucc = fn.Blocks[0].Succs[0], fn.Blocks[0].Succs[1]
+		}
+	default:
+		return false
+	}
+	if len(okSucc.Preds) != 1 {
+		return false
+	}
+	for blk := range reachableFrom(setSucc, nil) {
+		if okSucc.Dominates(blk) || blk == okSucc {
+			continue
+		}
+		for _, in := range blk.Instrs {
+			if ci, ok := in.(ssa.CallInstruction); ok {
+				if cc := ci.Common().StaticCallee(); (cc != nil && w.inPkg(cc)) || ci.Common().IsInvoke() {
+					return false
+				}
+			}
+		}
+	}
+	for _, blk := range fn.Blocks {
+		for _, in := range blk.Instrs {
+			ci, ok := in.(ssa.CallInstruction)
+			if !ok || in == ssa.Instruction(call) {
+				continue
+			}
+			cc := ci.Common().StaticCallee()
+			if (cc != nil && w.inPkg(cc)) || ci.Common().IsInvoke() {
+				if !(okSucc == blk || okSucc.Dominates(blk)) {
+					return false
+				}
+			}
+		}
+	}
+	return true
 }
 
 // decHelpers: leaf methods whose body decrements the named receiver field.
